@@ -276,7 +276,10 @@ func writeDelMap(w io.Writer, delmap map[int]map[int][]string, threshold int) er
 // Indels gets raw indel information from the cigar + sequence fields of a sam file
 func Indels(samFile io.Reader, insOut, delOut io.Writer, threshold int) error {
 
-	fmt.Println("sam indels is deprecated and may be removed in a future version. Please use sam variants instead.")
+	// (standard output may also be where one of the two tables goes)
+	if _, err := fmt.Println("sam indels is deprecated and may be removed in a future version. Please use sam variants instead."); err != nil {
+		return err
+	}
 
 	cErr := make(chan error)
 
